@@ -61,7 +61,7 @@ def gen_dataset(rng, kind, small=False):
     per = rng.choice([20, 37]) if small else rng.choice([25, 60, 128])
     n = nrg * per
     base = ["i", "f", "s", "t"]
-    extra = [c for c in ["c", "o"] if rng.random() < (0.5 if small else 0.8)] + ["b"]
+    extra = ["c"] + [c for c in ["o"] if rng.random() < (0.5 if small else 0.8)] + ["b"]     # (a pandas categorical and a boolean column always)
     spec = {"kind": kind, "n": n, "seed": rng.randrange(10 ** 6), "cols": base + extra,
             "offsets": [k * per for k in range(nrg)], "compression": rng.choice([None, None, "SNAPPY", "GZIP"])}
     if kind == "hive":
@@ -659,6 +659,7 @@ def fixed_ops(spec):
         if "c" in spec["cols"]:
             ops.append({"op": "to_pandas", "categories": ["c"]})
             ops.append({"op": "to_pandas", "categories": {"c": 3}, "columns": ["c", "i"]})
+            ops.append({"op": "to_pandas", "categories": [], "columns": ["c", "i"]})      # the categorical read as plain values
         return ops
     ops = [{"op": "to_pandas"}, {"op": "to_pandas", "columns": spec["cols"][:2], "index": False}, {"op": "to_pandas", "columns": spec["cols"][-1:]},
            {"op": "slice", "i": 0, "j": 1}, {"op": "slice_only", "i": 1, "j": None}, {"op": "index", "i": -1}, {"op": "iter"},
@@ -1172,6 +1173,9 @@ def forced_search(ctx, datasets, rng, quick, budget=None):
                 wp[okey(a)] = write_points(path, a)
             nw, nl = wp[okey(a)]
             b = rng.choice(pool)
+            va = option_variants(a, spec)
+            if va and rng.random() < 0.5:
+                b = rng.choice(va)          # the same operation with other per-call options (categories / index / columns)
             opc = OPC["ok"] and rng.random() < 0.4       # bytecode granularity: preempted right after the writing instruction
             ks = list(range(0, nw + 1))
             if len(ks) > 4:
@@ -1209,7 +1213,7 @@ def targeted_search(ctx, datasets, rng, quick, target):
     a, opc = target["op"], target["opcodes"]
     ks = sorted(set([target["k"], max(1, target["k"] - 1)]))
     first = spec["cols"][0] if spec.get("cols") else None
-    readers = [{"op": "columns"}, {"op": "statistics"}, {"op": "to_pandas", "columns": [first]} if first else {"op": "to_pandas"},
+    readers = option_variants(a, spec)[:3] + [{"op": "columns"}, {"op": "statistics"}, {"op": "to_pandas", "columns": [first]} if first else {"op": "to_pandas"},
                {"op": "count"}, {"op": "head", "n": 2, "columns": [first]} if first else {"op": "head", "n": 2}]
     budget = 700 if quick else 3000
     runs = 0
@@ -1274,6 +1278,44 @@ def native_codecs(ctx, rng, quick):
             break
 
 
+def option_variants(a, spec):
+    """the same operation with other PER-CALL options (categories, index, columns): what a call is given flows into attributes
+    of the shared handle (dtypes, index / column selections); two threads whose calls differ only there must not see each other's"""
+    if a.get("op") not in ("to_pandas", "head", "iter", "slice", "index", "pickle", "copy", "deepcopy"):
+        return []
+    cols = list(spec.get("cols", []))
+    has_c = "c" in cols and spec.get("kind") != "file"
+    out = []
+
+    def add(v):
+        if v != a and v not in out:
+            out.append(v)
+    v = dict(a)
+    if "categories" in v:
+        v.pop("categories")
+    elif has_c:
+        v["categories"] = []
+    add(v)
+    if has_c and (a.get("columns") is None or "c" in a.get("columns", [])):
+        for cv in (["c"], [], {"c": 3}):
+            if a.get("categories") != cv:
+                add(dict(a, categories=cv))
+    v = dict(a)
+    if "index" in v:
+        v.pop("index")
+    else:
+        v["index"] = False
+    add(v)
+    v = dict(a)
+    if "columns" in v:
+        v.pop("columns")
+    elif cols:
+        v["columns"] = cols[:1] + (["c"] if has_c and cols[0] != "c" else [])
+    if not (isinstance(v.get("categories"), (list, dict)) and v.get("categories") and "columns" in v and "c" not in v["columns"]):
+        add(v)
+    return out[:5]
+
+
 def site_search(ctx, datasets, rng, quick, target):
     """A write site (file, line) follows a refuted pattern, or a write observed there is not an idempotent publication.
     Look for the victim with the witness interleavings of the refuted theorems: thread A is preempted right after it LEFT
@@ -1297,9 +1339,20 @@ def site_search(ctx, datasets, rng, quick, target):
     spec, path, solo = datasets[0]
     a = target["op"]
     first = spec["cols"][0] if spec.get("cols") else None
-    readers = [a, {"op": "schema_text"}, {"op": "columns"}, {"op": "statistics"},
-               {"op": "to_pandas", "columns": [first]} if first else {"op": "to_pandas"}, {"op": "count"}]
+    variants = option_variants(a, spec)
+    readers = variants + [a, {"op": "schema_text"}, {"op": "columns"}, {"op": "statistics"},
+                          {"op": "to_pandas", "columns": [first]} if first else {"op": "to_pandas"}, {"op": "count"}]
     runs = 0
+    # publish-then-update (C20_publish_update_refuted): the writer is preempted right after it LEFT the offending statement (the
+    # publication), a call of the same operation with OTHER per-call options runs completely, the writer finishes - both role orders
+    for v in variants:
+        for first_, second_ in ((a, v), (v, a)):
+            for n in (1, 2):
+                for ln in sorted(set([line] + [ln_ for ln_ in range(line, end + 1)])):
+                    runs += 1
+                    if check_pair(ctx, spec, path, solo, [first_, second_], [[0, n, "left", file, ln], [1, BIG, "lines"]], "site-variant", False):
+                        ctx.extra["site_search_runs"] = ctx.extra.get("site_search_runs", 0) + runs
+                        return
     # two specific preemptions: the reader B stands right BEFORE / right AFTER a statement that uses the location, then the
     # writer A runs until it is inside (or has just left) the offending statement, then B finishes, then A
     for fn_b, ln_b, b in target.get("readers_at", []):
@@ -1436,6 +1489,9 @@ def storm_search(ctx, datasets, rng, quick, share=None):
         always = [(writers[2], readers[1]), (writers[0], readers[4])]
         if spec["kind"] != "file":
             always += [(writers[6], {"op": "statistics"}), two_reads]
+            if "c" in spec.get("cols", []):
+                always += [({"op": "to_pandas", "columns": ["c", "i"]}, {"op": "to_pandas", "columns": ["c", "i"], "categories": []}),
+                           ({"op": "to_pandas", "columns": ["c", "i"], "categories": []}, {"op": "to_pandas", "columns": ["c", "i"]})]
         else:
             always += [two_reads]
         pairs = always + pairs
